@@ -42,7 +42,7 @@ ENGINES = {
         stub='kernel sockets (socket/connect/recv/send/accept/poll/...), remote peers, clock, allocator policy',
     ),
     'http': dict(
-        harness=['engines/http.c', 'models/httpgen.c'],
+        harness=['engines/http.c'],
         sim=['sim/sim.c', 'sim/simalloc.c', 'sim/vkernel.c'],
         repo=NET_SRC + ['http/http.c'],
         inc=['http', 'network', 'netbuf', 'events', 'datastruct', 'util', 'external/queue', 'network_ssl', '.'],
